@@ -36,6 +36,8 @@ rec('Effect', kind=Int, addr=Rec('IPAddr'), proto=Int, spi=Bytes, aux=Int)
 ghostvar('trace', List(Rec('Effect')))
 ghostvar('now', Int)            # value of the last time.time(); every call returns >= now
 ghostvar('handled', Int)        # number of handler invocations (C08: executed at most once)
+# whether the message Message.parse returned last came through a verified SK payload (observer)
+ghostvar('protected_seen', Bool, observer=True)
 
 heapclass('ikesa.IkeSa',
           state=Int, my_spi=Bytes, peer_spi=Bytes, my_msg_id=Int, peer_msg_id=Int, is_initiator=Bool,
